@@ -3,6 +3,7 @@ design : DSMRNodeAccept_MC (Accept loop over local / remote chunks against every
 binding: (tv) Accept calls recorded from a real dsmr.Node with scripted get-chunk peers, validated against DSMRNodeAccept"""
 import json
 import os
+import re
 import vlib
 
 LEVEL = "model_checking"
@@ -19,6 +20,8 @@ def sig(f):
         return "%s:%s" % (kind, f["invariant"])
     if kind == "accept_ret" and ev.get("res") == "hang":
         return "accept:no-return-after-valid-chunk-served"
+    if kind == "req" and prev.get("ev") == "req" and prev.get("kind") == "valid" and prev.get("want") == ev.get("want"):
+        return "accept:refuses-served-valid-chunk-and-asks-again"
     if kind == "accept_ret" and ev.get("res") == "err" and prev.get("ev") == "req" and prev.get("kind") == "valid":
         return "accept:fails-after-successful-remote-fetch"
     if prev.get("ev") == "req" and prev.get("kind") == "wrong":
@@ -46,12 +49,20 @@ def run(ctx):
             ctx.cov["design_step_detects_pre_fix_Accept"] = bool(r["violated"])
             if not r["violated"]:
                 raise vlib.Infra("sensitivity: the model of the pre-fix Accept no longer violates NeverFails")
+            # variant in which VerifyRemoteChunk rate-limits fetched chunks: must violate the liveness property Served
+            r = vlib.run_tlc(ctx, "mc-ratelimited", "DSMRNodeAccept_MC", "DSMRNodeAccept_MC_ratelimited.cfg", timeout=900)
+            hit = "Temporal property Served was violated" in r["out"] or "Temporal properties were violated" in r["out"]
+            ctx.cov["design_step_detects_rate_limited_fetch"] = hit
+            if not hit:
+                raise vlib.Infra("sensitivity: the rate-limited fetch variant no longer violates Served:\n" + r["out"][-1500:])
     scenarios = ctx.pick(150, 2000)
     rc, out = vlib.go_driver(ctx, PKG, "^TestVerifAcceptRecord$", files=FILES, env={"VERIF_SCENARIOS": scenarios}, timeout=1500)
     if rc != 0:
         raise vlib.Infra("accept recorder failed:\n" + out[-3000:])
     files = vlib.scenario_files(ctx, "ac")
-    if len(files) < (1 if ctx.only is not None else scenarios):
+    hung_files = [f for f in files if any(l.get("res") == "hang" for l in vlib.read_ndjson(f))]
+    # the recorder stops after the first scenario whose Accept did not return (the abandoned call keeps spinning)
+    if len(files) < (1 if (ctx.only is not None and ctx.only is not vlib.ALL) else scenarios) and not hung_files:
         raise vlib.Infra("recorder wrote %d of %d scenarios" % (len(files), scenarios))
     distinct = set()
     for f in files:
@@ -69,32 +80,49 @@ def run(ctx):
             if l["ev"] == "accept_ret":
                 ctx.add("accept_" + l["res"], 1)
                 if l["res"] == "hang":
-                    # never a verdict from the clock alone: the deterministic replay of the same scenario must hang again
-                    if ctx.only is None:
-                        ctx.add("hangs_seen", 1)
+                    ctx.add("hangs_seen", 1)
         if remote:
             distinct.add(hash(tuple((l["ev"], tuple(l.get("certs", [])), tuple(l.get("script", [])), l.get("c", ""), l.get("kind", ""))
                                     for l in lines[1:])))
     ctx.add("evaluations", len(files))
     ctx.add("distinct_nontrivial", len(distinct))
-    if ctx.cov.get("hangs_seen"):
+    if hung_files and (ctx.only is None or ctx.only is vlib.ALL):
         # "no hang": the watchdog alone decides nothing; the same seeded scenario must hang again when replayed alone
-        hung = [f for f in files if any(l.get("res") == "hang" for l in vlib.read_ndjson(f))][0]
+        hung = hung_files[0]
         num = int(os.path.basename(hung)[2:7])
         keep = open(hung).read()
         rc2, out2 = vlib.go_driver(ctx, PKG, "^TestVerifAcceptRecord$", files=FILES,
-                                   env={"VERIF_SCENARIOS": scenarios, "VERIF_ONLY": num}, timeout=600)
+                                   env={"VERIF_SCENARIOS": scenarios, "VERIF_ONLY": num, "VERIF_WATCHDOG_S": 45}, timeout=600)
         again = any(l.get("res") == "hang" for l in vlib.read_ndjson(hung)) if rc2 == 0 else False
         if not again:
             open(hung, "w").write(keep)
-            raise vlib.Infra("scenario %d did not return within 60 s once but returned when replayed alone: machine too slow, no verdict" % num)
+            raise vlib.Infra("scenario %d did not return within the watchdog once but returned when replayed alone: machine too slow, no verdict" % num)
         ctx.cov["hang_reproduced_by_replay"] = num
-    if ctx.only is None:
-        for k in ("requests_valid", "requests_wrong", "requests_error", "requests_badsig", "blocks_mixed", "blocks_all_remote"):
-            if not ctx.cov.get(k):
-                raise vlib.Infra("vacuous: no recorded scenario exercised %s" % k)
+    for k in ("requests_valid", "requests_wrong", "requests_error", "requests_badsig", "blocks_mixed", "blocks_all_remote"):
+        if ctx.only is None and not ctx.cov.get(k):
+            raise vlib.Infra("vacuous: no recorded scenario exercised %s" % k)
     ctx.sample({"kind": "recorded-trace", "first_lines": vlib.read_ndjson(files[0])[:8]})
-    fails = vlib.validate_scenarios(ctx, "DSMRNodeAccept_Trace", "DSMRNodeAccept_Trace.cfg", files, label="tv", signature_fn=sig)
+    # the trace spec marks (PrintT) every valid chunk that is fetched while its producer's pending weight on the acceptor
+    # is already at the rule's limit, and every pre-block store over the limit (must be 0: the driver asks CheckRateLimit)
+    ctx.cov["fetches_with_producer_at_rate_limit"] = 0
+    ctx.cov["stores_over_rate_limit"] = 0
+    orig = vlib.tlc_trace
+
+    def capture(*a, **k):
+        r = orig(*a, **k)
+        ctx.cov["fetches_with_producer_at_rate_limit"] += len(set(re.findall(r'FETCH_OVER_LIMIT", (\d+)', r["out"])))
+        ctx.cov["stores_over_rate_limit"] += len(set(re.findall(r'STORE_OVER_LIMIT", (\d+)', r["out"])))
+        return r
+    vlib.tlc_trace = capture
+    try:
+        fails = vlib.validate_scenarios(ctx, "DSMRNodeAccept_Trace", "DSMRNodeAccept_Trace.cfg", files, label="tv",
+                                        signature_fn=sig)
+    finally:
+        vlib.tlc_trace = orig
+    tight = sum(1 for f in files if vlib.read_ndjson(f)[0].get("limit", 10**6) < 10**6)
+    ctx.cov["scenarios_with_small_rate_limit"] = tight
+    if ctx.only is None and not fails and not ctx.cov["fetches_with_producer_at_rate_limit"]:
+        raise vlib.Infra("vacuous: no chunk was fetched while its producer was at the rate limit on the acceptor")
     for f in files:
         os.remove(f)
     vlib.report_failures(ctx, fails, describe)
@@ -102,11 +130,17 @@ def run(ctx):
                        "(coin flip), peers answering from a script of 0-4 responses drawn from {error, undecodable, junk chunk, bad "
                        "signature, non-validator producer, expiry out of window, wrong-but-valid chunk, valid} and serving the valid "
                        "chunk afterwards; a scenario is non-trivial when at least one chunk had to be requested; distinct = distinct "
-                       "(certs, local set, script, request kinds) sequences")
+                       "(certs, local set, script, request kinds) sequences. Half of the scenarios run with "
+                       "GetMaxAccumulatedProducerChunkWeight = 1-3 chunks, 70% of the chunks by one producer and 0-2 further pending "
+                       "chunks of it that no block references; chunks are pre-stored only when CheckRateLimit allows (as the "
+                       "signature-request path does), so referenced chunks are fetched while their producer is at the limit")
     ctx.assumptions += ["scripts that never serve the valid chunk are excluded (Accept retries forever by design)",
                         "chunk expiries lie in [block timestamp, parent timestamp + validity window], which is what a quorum of honest "
                         "validators can have signed when the block is built; Accept hands fetched chunks to the ChunkVerifier whose "
                         "window is anchored at the last accepted timestamp",
                         "every validator id (including the acceptor's own) answers from the same script, so the random peer choice "
                         "of the code does not influence the outcome",
-                        "a recorded hang (no return within 60 s) is reported only through the deterministic per-scenario replay"]
+                        "a recorded hang (no return within the 30 s watchdog) is reported only if the same scenario hangs again "
+                        "when replayed alone with a 45 s watchdog; a repeated request for a chunk that was just served validly is "
+                        "rejected by the trace spec without any clock",
+                        "all chunks of a scenario have the same byte size, the rate limit is expressed in chunks"]
